@@ -30,8 +30,18 @@
 
 #include <libcuckoo/cuckoohash_map.hh>
 
-// the guarded synchronisation hooks are compiled in (LIBCUCKOO_VERIF) but not used by this harness
-extern "C" void libcuckoo_verif_hook(int, const void *, unsigned long, unsigned long) {}
+// The guarded synchronisation hooks are used for one protocol rule that is decidable without a scheduler
+// (ConcInv.release_only_after_bump): once a table has published a new lock array (EMPLACE), no lock may be released
+// before the resize generation of that table is bumped (FA_RC) - on the normal path and on every exception path.
+#include <set>
+static std::set<const void *> g_unpublished;      // tables with a new lock array and no bump yet
+static std::string g_protocol_error;
+extern "C" void libcuckoo_verif_hook(int kind, const void *obj, unsigned long, unsigned long) {
+  if (kind == LIBCUCKOO_VH_EMPLACED) g_unpublished.insert(obj);
+  else if (kind == LIBCUCKOO_VH_FA_RC) g_unpublished.erase(obj);
+  else if (kind == LIBCUCKOO_VH_UNLOCK && !g_unpublished.empty() && g_protocol_error.empty())
+    g_protocol_error = "a lock is released after a new lock array was published and before the resize generation was bumped";
+}
 
 #ifndef H_SPB
 #define H_SPB 4
@@ -53,6 +63,7 @@ static std::unordered_map<uint64_t, uint64_t> g_hash;
 static std::vector<std::string> g_errors; // harness-detected misuse (read of moved-from object, ...)
 // ---------------------------------------------------------------- fault injection (T3, C07)
 struct UserFault {};   // what a user's hash / equality / constructor / functor throws
+static bool g_lvalue_args = false;  // script directive "lvalues 1": insertion-type calls get lvalue arguments
 static int g_fault_kind = 0;      // 0 none, 1 k-th allocation, 2 hash of poison key, 3 equality with poison key,
                                   // 4 k-th copy construction of an element from user arguments, 5 functor
 static long g_fault_at = 0;
@@ -519,24 +530,26 @@ static std::string exec_op(int a, const std::vector<std::string> &tk) {
     } else if (o == "insert") {
       bool res;
       { Args ar(U(tk[2]), I(tk[3]));
-        if (g_copy_args) res = t.insert(ar.k, ar.v);   // fault mode: elements copy-constructed from lvalue arguments
+        if (g_copy_args || g_lvalue_args) res = t.insert(ar.k, ar.v);   // lvalue arguments: elements copy-constructed, arguments untouched
         else res = t.insert(std::move(ar.k), std::move(ar.v)); }
       r = B(res) + g_consumed;
     } else if (o == "ioa") {
-      bool res; { Args ar(U(tk[2]), I(tk[3])); res = t.insert_or_assign(std::move(ar.k), std::move(ar.v)); }
+      bool res; { Args ar(U(tk[2]), I(tk[3])); res = g_lvalue_args ? t.insert_or_assign(ar.k, ar.v) : t.insert_or_assign(std::move(ar.k), std::move(ar.v)); }
       r = B(res) + g_consumed;
     } else if (o == "upsert") {
       Fnk f = parse_fn(tk[3]);
       bool res;
       { Args ar(U(tk[2]), I(tk[5]));
-        res = (tk[4] == "1") ? t.upsert(std::move(ar.k), UpsertFn2{f}, std::move(ar.v))
+        if (g_lvalue_args) res = (tk[4] == "1") ? t.upsert(ar.k, UpsertFn2{f}, ar.v) : t.upsert(ar.k, UpsertFn1{f}, ar.v);
+        else res = (tk[4] == "1") ? t.upsert(std::move(ar.k), UpsertFn2{f}, std::move(ar.v))
                              : t.upsert(std::move(ar.k), UpsertFn1{f}, std::move(ar.v)); }
       r = B(res) + g_fnlog + g_consumed;
     } else if (o == "uprase") {
       Fnk f = parse_fn(tk[3]);
       bool res;
       { Args ar(U(tk[2]), I(tk[5]));
-        res = (tk[4] == "1") ? t.uprase_fn(std::move(ar.k), UpraseFn2{f}, std::move(ar.v))
+        if (g_lvalue_args) res = (tk[4] == "1") ? t.uprase_fn(ar.k, UpraseFn2{f}, ar.v) : t.uprase_fn(ar.k, UpraseFn1{f}, ar.v);
+        else res = (tk[4] == "1") ? t.uprase_fn(std::move(ar.k), UpraseFn2{f}, std::move(ar.v))
                              : t.uprase_fn(std::move(ar.k), UpraseFn1{f}, std::move(ar.v)); }
       r = B(res) + g_fnlog + g_consumed;
 #else
@@ -595,7 +608,9 @@ static std::string exec_op(int a, const std::vector<std::string> &tk) {
     } else if (o == "l.insert") {
 #if H_KIND == 1
       std::string pr; bool ins;
-      { Args ar(U(tk[2]), I(tk[3])); auto res = g_lt[a]->insert(std::move(ar.k), std::move(ar.v)); pr = pos_str(res.first); ins = res.second; }
+      { Args ar(U(tk[2]), I(tk[3]));
+        if (g_lvalue_args) { auto res = g_lt[a]->insert(ar.k, ar.v); pr = pos_str(res.first); ins = res.second; }
+        else { auto res = g_lt[a]->insert(std::move(ar.k), std::move(ar.v)); pr = pos_str(res.first); ins = res.second; } }
       r = " " + pr + B(ins) + g_consumed;
 #else
       auto res = g_lt[a]->insert(mkkey(U(tk[2])), mkval(I(tk[3])));
@@ -846,6 +861,7 @@ static void fault_child(int a, const std::vector<std::string> &tk, int kind, lon
   bool fired = g_fault_fired;
   std::string verdict = "ok", detail;
   if (!g_errors.empty()) { verdict = "harness-error"; detail = g_errors[0]; }
+  if (verdict == "ok" && !g_protocol_error.empty()) { verdict = "protocol-rule-broken"; detail = g_protocol_error; }
   size_t after_hash = 0;
   {
     std::string all;
@@ -1054,6 +1070,7 @@ int main(int argc, char **argv) {
       g_hash[U(tk[1])] = U(tk[2]);
       continue;
     }
+    if (tk[0] == "lvalues") { g_lvalue_args = (tk[1] == "1"); continue; }
     int a = atoi(tk[0].c_str());
     if (faults) enumerate_faults(lineno, line, a, tk);
     std::string r = exec_op(a, tk);
@@ -1066,6 +1083,7 @@ int main(int argc, char **argv) {
       if (g_tab[i]) dump_table(out, i);
     for (auto &e : g_errors) out += "HARNESS-ERROR " + e + "\n";
     g_errors.clear();
+    if (!g_protocol_error.empty()) { out += "HARNESS-ERROR " + g_protocol_error + "\n"; g_protocol_error.clear(); g_unpublished.clear(); }
     if (!faults) fwrite(out.data(), 1, out.size(), stdout);
     out.clear();
   }
